@@ -44,6 +44,19 @@ def run_variant(repo, v):
         for ed in v['edits']:
             p = os.path.join(d, ed['file'])
             s = open(p, encoding='utf-8').read()
+            if ed.get('rename'):
+                # behaviour-preserving rename of local variables inside one function (whole-word, that function's text only)
+                import ast as _ast, re as _re
+                tree = _ast.parse(s)
+                fnn = [n for n in _ast.walk(tree) if isinstance(n, _ast.FunctionDef) and n.name == ed['rename']['function']][0]
+                lines = s.split('\n')
+                seg = '\n'.join(lines[fnn.lineno - 1:fnn.end_lineno])
+                for a, b in ed['rename']['map'].items():
+                    seg = _re.sub(r'(?<![\w.\'\"])%s(?![\w\'\"(])(?!=[^=])' % _re.escape(a), b, seg)
+                s2 = '\n'.join(lines[:fnn.lineno - 1] + [seg] + lines[fnn.end_lineno:])
+                _ast.parse(s2)
+                open(p, 'w', encoding='utf-8').write(s2)
+                continue
             if ed.get('transform') == 'unparse':
                 # behaviour-preserving reformat: drops comments, normalises layout, quotes and line numbers
                 import ast as _ast
